@@ -124,7 +124,9 @@ def cases(tier, seed, shard, nshards):
                    "fmt": r.choice([None, ["  ", 12, True, "\n", None], ["", "auto", False, "\n\n\n", None]])}
     shapes = ["none", "empty_list", "empty_tuple", "empty_str", "same", "one_new", "list1", "list2", "list3", "tuple2", "generator2",
               "int", "str", "object", "dict", "list_with_nonblock", "list_with_none", "zero", "false", "zero_float", "falsy_object", "falsy_block"]
-    for kind in ("entry", "string", "preamble", "ecomment", "icomment"):
+    # "tb:<kind>": the probe overrides transform_block itself and answers for blocks of that kind - also for the failed kinds,
+    # which the per-type methods never see (seed C20-l: blocks on which an earlier middleware failed were passed through)
+    for kind in ("entry", "string", "preamble", "ecomment", "icomment", "tb:entry", "tb:failed", "tb:dupkey", "tb:dupfield", "tb:mwerror", "tb:icomment"):
         for shp in shapes:
             idx += 1
             if idx % nshards == shard:
@@ -565,6 +567,12 @@ def check_splice(case, ctx):
     kind, shape = case["kind"], case["shape"]
     specs = [["string", "s1", "{v}"], ["entry", "article", "e1", [["t", "{1}"]]], ["preamble", "p"], ["ecomment", "c"], ["icomment", "i"],
              ["entry", "book", "e2", []], ["string", "s2", "{w}"], ["failed", "@x{"]]
+    tb = kind.startswith("tb:")
+    if tb:
+        kind = kind[3:]
+        specs += [["dupkey", "e1", ["entry", "misc", "e1", [["t", "{3}"]], "@misc{e1, t = {3}}"]], ["dupfield", ["t"], ["entry", "misc", "df", [["t", "{1}"], ["t", "{2}"]], "@misc{df, t = {1}, t = {2}}"]],
+                  ["mwerror", ["entry", "misc", "zz", [["author", "{A, B, C, D}"]], "@misc{zz}"], "invalidname"], ["failed", "@y{"],
+                  ["mwerror", ["entry", "misc", "yy", [["title", "{x}"]], "@misc{yy}"], "partial"]]
     lib = build.library(specs)
     new = [M.Entry("misc", "n%d" % i, [M.Field("t", "{n}")]) for i in range(3)]
     sentinel = object()
@@ -604,8 +612,14 @@ def check_splice(case, ctx):
         hit.append(block)
         return value(block)
 
-    setattr(Splice, {"entry": "transform_entry", "string": "transform_string", "preamble": "transform_preamble",
-                     "ecomment": "transform_explicit_comment", "icomment": "transform_implicit_comment"}[kind], method)
+    if tb:
+        def transform_block(self, block, library):
+            return method(self, block, library) if sp.block_kind(block) == kind else block
+        Splice.transform_block = transform_block
+        ctx.mon("splice_via_transform_block")
+    else:
+        setattr(Splice, {"entry": "transform_entry", "string": "transform_string", "preamble": "transform_preamble",
+                         "ecomment": "transform_explicit_comment", "icomment": "transform_implicit_comment"}[kind], method)
     st, res = sp.escape(lambda: Splice().transform(lib))
     ctx.ran()
     ctx.mon("splice")
